@@ -198,6 +198,10 @@ static void do_dec1(char* line) {
   struct cbor_decoder_result r = cbor_stream_decode(buf, n, &rec_callbacks, NULL);
   char* ev = ob; ob = save; ob_len = save_len; ob_cap = save_cap;
   ob_printf("%s %zu %zu %s", status_s(r.status), r.read, r.required, rec_count ? ev : "-");
+  /* the library's own no-op callback table (callbacks.c): the result struct may not depend on the callbacks */
+  struct cbor_decoder_result r0 = cbor_stream_decode(buf, n, &cbor_empty_callbacks, NULL);
+  if (r0.status != r.status || r0.read != r.read || r0.required != r.required)
+    ob_printf(" EMPTYCB=%s:%zu:%zu", status_s(r0.status), r0.read, r0.required);
   if (a_requests) ob_printf(" ALLOCS=%lu", a_requests);
   free(ev);
   free_al(buf);
@@ -404,6 +408,7 @@ static void do_load(char* line) {
     if (!dump_rc_ok) ob_printf(" RC=BAD");
     if (!tree_full(it)) ob_printf(" NOTFULL");
     if (res.error.code != CBOR_ERR_NONE) ob_printf(" CODE=%s", err_s(res.error.code));
+    if (res.error.position != 0) ob_printf(" POS=%zu", res.error.position);   /* result pre-filled with 0xAA: unwritten shows */
     cbor_decref(&it);
     if (a_live != 0) ob_printf(" LEAK=%ld", a_live);
   } else {
@@ -632,6 +637,14 @@ static void do_sizesser(char* line) {
     ob_printf("%s%zu", i ? "," : "", r);
     for (size_t k = n; k < n + 16; k++) if (b[k] != 0xA5) { ob_printf(" OVERWRITE@%zu+%zu", n, k - n); break; }
     free(b);
+  }
+  /* cbor_serialize_alloc on the same tree: the size is 0 (overflow) or beyond the allocator cap, so the documented
+     failure channel is: return 0, *buffer == NULL, *buffer_size == 0 (anything else is printed) */
+  {
+    unsigned char* ab = (unsigned char*)0x1; size_t absz = 777;
+    size_t ar = cbor_serialize_alloc(it, &ab, &absz);
+    if (ar != 0 || ab != NULL || absz != 0) ob_printf(" ALLOC=%zu:%zu:%s", ar, absz, ab ? "ptr" : "null");
+    if (ab) hx_free(ab);
   }
   cbor_decref(&it);
   if (a_live != 0) ob_printf(" LEAK=%ld", a_live);
